@@ -87,6 +87,10 @@ structure State where
   order : List Nat                             -- iteration order of `state.flow_states`
   queue : List IEv                             -- `state.internal_events`
   out : List OEv                               -- `state.outgoing_events`
+  /-- uids of the instances that are being aborted / finished further up the call stack: the `in_progress` set of the
+      REPAIRED `_abort_flow` (fixes/C06-activation-cycle.diff), threaded through the state.  Read and written only by
+      `abortFlowV` / `finishFlowV` (Models/LifetimeV.lean); the as-is functions below never touch it. -/
+  busy : List Nat := []
 
 /-! ### primitive state updates -/
 
